@@ -86,7 +86,20 @@ def case_to_coq(c, cleanup):
             c["id"], C.cq_bytes(c.get("ns_bytes") or []), C.cq_bytes(c.get("name_bytes") or []),
             C.cq_bytes(o["ing"]), C.cq_bytes(o["ing_key"]), C.cq_bytes(o["vs"]), C.cq_bytes(o["vs_key"]),
             C.cq_bytes(o["ts"]), C.cq_bytes(o["ts_key"]), C.cq_bytes(o["key"]))
+    if c["fam"] == "mgr":
+        ops = []
+        for o in c.get("mops") or []:
+            fam = MFAM[o["fam"]]
+            if o["op"] == "write":
+                ops.append("(MWrite %s %s %s)" % (fam, C.cq_str(o.get("name", "")), C.cq_str(o.get("content", ""))))
+            else:
+                ops.append("(MDel %s %s)" % (fam, C.cq_str(o.get("name", ""))))
+        return "mgr_case %d %s %s" % (c["id"], C.cq_list(ops), C.cq_list([cq_pairs(o) for o in c["obs"]]))
     raise ValueError(c["fam"])
+
+
+MFAM = {"conf": "MConf", "stream": "MStream", "hosts": "MHosts", "main": "MMain", "secret": "MSecret", "dhparam": "MDhparam", "ap": "MAp"}
+EVALUATED = ("hist", "names", "mgr")
 
 
 def has_error(c):
@@ -94,7 +107,7 @@ def has_error(c):
 
 
 def evaluate(run, cases, tag, cleanup, trace=False):
-    cases = [c for c in cases if c["fam"] in ("hist", "names") and not has_error(c)]
+    cases = [c for c in cases if c["fam"] in EVALUATED and not has_error(c)]
     if not cases:
         return []
     body = "From NIC Require Import Base.SMap Files.Model Files.Spec Files.Cases.\n"
@@ -161,7 +174,7 @@ def judge(run, cases, res):
     for row in res:
         cid, agree, spec, nontrivial, tag, bits, first_s, first_x = row
         c = byid[cid]
-        canon = {k: c.get(k) for k in ("fam", "events", "ns_bytes", "name_bytes", "plus")}
+        canon = {k: c.get(k) for k in ("fam", "events", "ns_bytes", "name_bytes", "plus", "mops")}
         run.count_case(canon, bool(nontrivial))
         run.cov["traces_validated_against_impl"] += 1
         fam = run.cov.setdefault("by_family", {})
@@ -173,6 +186,14 @@ def judge(run, cases, res):
                 run.failing({"kind": "projection"}, [c],
                             "case %d (%s): %s" % (cid, c["class"], p), theorem="projection of the implementation's files", found_input=False)
         if not spec:
+            if c["fam"] == "mgr":
+                op = c["mops"][first_s] if 0 <= first_s < len(c["mops"]) else None
+                run.failing({"kind": "spec", "fam": "mgr", "family": (op or {}).get("fam"), "op": (op or {}).get("op")}, [c],
+                            "after a LocalManager file operation the file does not hold exactly the written bytes / is not gone, or another file moved "
+                            "(case %d, class %s, first at call %d: %s; listing after it: %s)"
+                            % (cid, c["class"], first_s, json.dumps(op), json.dumps(c["obs"][first_s] if op else None)[:300]),
+                            theorem="Files.Cases.mstep_ok")
+                continue
             if c["fam"] == "names":
                 run.failing({"kind": "spec", "fam": "names"}, [c],
                             "the name under which a resource is written and the name under which it is deleted differ (case %d): %s"
@@ -195,6 +216,8 @@ def judge(run, cases, res):
                 run.failing({"kind": "spec", "fam": "hist", "class": c["class"]}, [c], what, theorem="Files.Spec.spec_ok")
         if not agree:
             step = c.get("events", [None])[first_x] if c["fam"] == "hist" and 0 <= first_x < len(c["events"]) else None
+            if c["fam"] == "mgr" and 0 <= first_x < len(c["mops"]):
+                step = c["mops"][first_x]
             run.failing({"kind": "correspondence", "fam": c["fam"]}, [c],
                         "model and implementation disagree (family %s, class %s, case %d, first at step %d: %s)%s"
                         % (c["fam"], c["class"], cid, first_x, json.dumps(step)[:200],
@@ -242,13 +265,13 @@ def run_cases(run, args, tag, trace=False):
 
 
 def check(run):
-    n = 1200 if run.tier == "quick" else 12000
+    n = 900 if run.tier == "quick" else 12000
     run.proof_obligations()
     cases = run_cases(run, ["-seed", str(run.seed), "-n", str(n), "-tier", run.tier], run.tier)
     cleanup = cleanup_variant(cases)
     run.cov["model_variant"] = "cleanup=%s (addOrUpdateTransportServer %s a stale passthrough pair)" % (cleanup, "removes" if cleanup else "keeps")
     startup_obligations(run, cases)
-    ev = [c for c in cases if c["fam"] in ("hist", "names")]
+    ev = [c for c in cases if c["fam"] in EVALUATED]
     shard = 120
     parts = [ev[k:k + shard] for k in range(0, len(ev), shard)]
     from concurrent.futures import ThreadPoolExecutor
@@ -273,7 +296,10 @@ def check(run):
                        "key used as Ingress+VS+TS, and a simulated restart at a random point (classes restart-*: cluster unchanged/updated/extended, "
                        "or with deletions while down) or at EVERY point of a base history (classes everypoint-*); 1/4 of the histories with the NGINX Plus "
                        "templates; observed after EVERY event: listings of conf.d and stream-conf.d with content stamp, parsed "
-                       "tls-passthrough-hosts.conf, keys of the Configurator's maps.  names: the seven naming functions on arbitrary byte strings. "
+                       "tls-passthrough-hosts.conf, keys of the Configurator's maps; 2/5 of the adds of a known identity re-apply an EARLIER version byte for byte "
+                       "(add -> delete -> re-add of identical content, change -> change back).  mgr: 6-19 direct calls of the LocalManager file methods "
+                       "(Create/Delete Config, StreamConfig, Secret, AppProtectResourceFile; Create TLSPassthroughHostsConfig, MainConfig, DHParam) over 2-4 "
+                       "names and 2-4 contents, the whole root listed with contents after every call.  names: the seven naming functions on arbitrary byte strings. "
                        "startup: syntactic census of main.go / manager.go.  A case is distinct by its full input; a history is nontrivial when some step has a non-empty listing.")
     from . import arbfiles
     arbfiles.check_files(run, 80 if run.tier == "quick" else 1500)
@@ -296,7 +322,7 @@ def replay(run, path):
     cases = run_cases(run, ["-replay", path], "replay")
     wit = run_cases(run, ["-seed", "1", "-n", "0"], "replay_wit")
     cleanup = cleanup_variant(wit)
-    ev = [c for c in cases if c["fam"] in ("hist", "names")]
+    ev = [c for c in cases if c["fam"] in EVALUATED]
     for c in ev:
         print("replay case %d (%s/%s): implementation observed:" % (c["id"], c["fam"], c["class"]))
         if c["fam"] == "hist" and not has_error(c):
